@@ -231,6 +231,11 @@ class DateTime:
         )
 
         if format:
+            if not isinstance(format, str):
+                raise LiquidTypeError(
+                    f"expected a string argument, found {type(format).__name__}",
+                    token=None,
+                )
             _format = self.formats.get(format, format)
         else:
             format_string = context.resolve(self.format_var)
@@ -256,12 +261,16 @@ class DateTime:
             default=self.default_input_timezone,
         )
 
-        return dates.format_datetime(
-            _parse_datetime(left, input_tzinfo),
-            format=_format,
-            locale=locale,
-            tzinfo=tzinfo,
-        )
+        try:
+            return dates.format_datetime(
+                _parse_datetime(left, input_tzinfo),
+                format=_format,
+                locale=locale,
+                tzinfo=tzinfo,
+            )
+        except OSError as err:
+            # A timestamp this platform can't handle.
+            raise LiquidValueError(str(err), token=None) from err
 
     def _resolve_timezone(
         self,
